@@ -35,6 +35,7 @@ static qaconf_option_t OPTS[] = {
     {"Listen", QAC_TAKE_INT, cb, 0, QAC_SECTION_ALL}, {"Flag", QAC_TAKE_BOOL, cb, 0, QAC_SECTION_ROOT},
     {"Domain", QAC_TAKE_STR, cb, 2, QAC_SECTION_ROOT}, {"Host", QAC_TAKE_STR, cb, 4, 2}, {"TTL", QAC_TAKE_INT, cb, 0, 2 | 4},
     {"Mix", QAC_TAKEALL | QAC_A1_BOOL | QAC_A2_INT | QAC_AA_FLOAT, cb, 0, QAC_SECTION_ALL}, {"Pair", QAC_TAKE2, cb, 0, QAC_SECTION_ALL},
+    {"Five", QAC_TAKE5 | QAC_A1_INT | QAC_A3_FLOAT | QAC_A4_INT | QAC_A5_BOOL, cb, 0, QAC_SECTION_ALL}, {"Many", QAC_TAKEALL | QAC_AA_BOOL, cb, 0, QAC_SECTION_ALL},
     QAC_OPTION_END };
 
 int main(int argc, char **argv) {
